@@ -532,20 +532,24 @@ def _judge(case: dict[str, Any]) -> list[tuple[str, str]]:
         guarded(f"same-system:{t}", same)
 
     # ---- (6) Lame coefficients ----------------------------------------------------------------
-    for t in TYPES:
+    # every system OBJECT has scale factors in its own base scalars: both objects of each type are read (the second one
+    # after the first - a value remembered per type instead of per object shows here)
+    for name in [n for t in TYPES for n in (t, t + "2")]:
 
-        def lame(t: str = t) -> None:
-            hs = [to_mp(sympy.sympify(h).subs(subs_for(t))) for h in S[t].lame_coefficients]
+        def lame(name: str = name) -> None:
+            t = typ(name)
+            tag = t if name == t else f"{t}:second-object"
+            hs = [to_mp(sympy.sympify(h).subs(subs_for(name))) for h in S[name].lame_coefficients]
             ref = lame_ref(t, qh[t])
             for i in range(3):
                 if abs(hs[i] - ref[i]) > TOL * (1 + abs(ref[i])):
-                    bad(f"lame:{t}:{i}", f"Lame coefficient {i} of {t} at {_show(qh[t])} is {_show(hs[i])}, |dX/dq_{i}| = {_show(ref[i])}")
-            jac = to_mp(sympy.sympify(S[t].jacobian).subs(subs_for(t)))
+                    bad(f"lame:{tag}:{i}", f"Lame coefficient {i} of {tag} at {_show(qh[t])} is {_show(hs[i])}, |dX/dq_{i}| = {_show(ref[i])}")
+            jac = to_mp(sympy.sympify(S[name].jacobian).subs(subs_for(name)))
             det = det3(dX_of(t, qh[t]))
             if abs(jac - det) > TOL * (1 + abs(det)) or abs(jac - hs[0] * hs[1] * hs[2]) > TOL * (1 + abs(det)):
-                bad(f"jacobian:{t}", f"jacobian of {t} at {_show(qh[t])} is {_show(jac)}, det dX/dq = {_show(det)}")
+                bad(f"jacobian:{tag}", f"jacobian of {tag} at {_show(qh[t])} is {_show(jac)}, det dX/dq = {_show(det)}")
 
-        guarded(f"lame:{t}", lame)
+        guarded(f"lame:{name}", lame)
 
     # ---- (4) convert_point -----------------------------------------------------------------------
     pA = label[A]
@@ -679,18 +683,18 @@ def enumerated(rec: Recorder) -> None:
         CylindricalCoordinateSystem, SphericalCoordinateSystem, express_base_scalars, express_base_vectors)
     from symplyphysics.core.experimental.points import AppliedPoint
     S = systems()
-    for t in TYPES:
-        Xs = X_sym(t, S[t])
+    for t in [n for t0 in TYPES for n in (t0, t0 + "2")]:
+        Xs = X_sym(typ(t), S[t])
         hs = S[t].lame_coefficients
         for i, q in enumerate(S[t].base_scalars):
             sq = sum(sympy.diff(x, q)**2 for x in Xs)
             ok = sympy.simplify(sympy.sympify(hs[i])**2 - sq) == 0
-            rec.case({"lame-symbolic": t, "i": i}, nontrivial=t != "cart", labels=["enumerated:lame-symbolic"])
+            rec.case({"lame-symbolic": t, "i": i}, nontrivial=typ(t) != "cart", labels=["enumerated:lame-symbolic"])
             if not ok:
                 rec.violation(f"lame:{t}:{i}", f"Lame coefficient {i} of {t}: h^2 = {sympy.sympify(hs[i])**2} but |dX/dq|^2 = {sympy.simplify(sq)}",
                     {"enumerated": "lame", "sys": t, "i": i})
         jac = sympy.Matrix([[sympy.diff(x, q) for x in Xs] for q in S[t].base_scalars]).det()
-        rec.case({"jacobian-symbolic": t}, nontrivial=t != "cart", labels=["enumerated:jacobian-symbolic"])
+        rec.case({"jacobian-symbolic": t}, nontrivial=typ(t) != "cart", labels=["enumerated:jacobian-symbolic"])
         if sympy.simplify(S[t].jacobian - jac) != 0:
             rec.violation(f"jacobian:{t}", f"jacobian of {t} is {S[t].jacobian}, det dX/dq = {sympy.simplify(jac)}",
                 {"enumerated": "jacobian", "sys": t})
